@@ -691,6 +691,14 @@ class HDF5FileSources(Contract):
                     ob(f'{short}.{dsn[0]}.rows', And(*conds), f'each row of the record of {dsn[0]} ({rec}) is the corresponding row of the source ({shape}) and the read stays inside the buffer')
         if napp < 10:
             raise ExtractionError(f'HDF5File: only {napp} _appendData calls with a known source recognised')
+        # (4) "the stored CSR intensity is the sum of the stored spectrum": the intensity accumulates every bin k < nmax of the
+        # spectrum (updateCSR#post.power_is_sum); bins above nmax/2 carry nothing (impedance identically zero there, C16 upper_zero),
+        # so every bin that can carry power, k <= nmax/2, has to be among the stored ones, k < stored width of /CSR/Spectrum/data
+        if '_csrSpectrum' in dims:
+            kk = z3.Int('k!bin')
+            width = sym(dims['_csrSpectrum'][-1])
+            ob('csr_intensity_is_sum_of_stored_spectrum', Implies(And(kk >= 0, kk < nmax, kk <= nmax / 2), kk < width),
+               f'every spectrum bin that enters the stored CSR intensity and can be non-zero (k <= nmax/2) is stored; /CSR/Spectrum/data keeps {dims["_csrSpectrum"][-1]} bins per bunch', tags=frozenset({'C10'}))
 
     @staticmethod
     def _calls(n, name):
